@@ -238,6 +238,7 @@ pub fn report_failure(rep_out: &mut Report, t: &Ty, v: &Val, rep: Rep, rt: &Rt, 
         rep.name(),
         fin.key,
         fin.detail,
+        sig_class(&mt),
         ty_to_json(&mt).to_string(),
         val_to_json(&mt, &mv).to_string(),
         fin.bytes.as_ref().map(|b| vcore::hex(b)).unwrap_or_default()
